@@ -72,7 +72,7 @@ func buildEvidence(prop, tier string, seed int, pc propConfig, outs []entryOut, 
 			"entry": o.es.name, "package": o.es.file.pkgDir, "paths": r.Paths, "path_ends": r.EndKinds, "tree_nodes": r.TreeNodes,
 			"queries": r.Queries, "sat": r.Sat, "unsat": r.Unsat, "unknown": r.Unknown, "solver_errors": r.SolverErrors,
 			"solver_s": round1(r.SolverTime.Seconds()), "wall_s": round1(r.Wall.Seconds()), "max_threads": r.MaxThreads, "sched_points": r.SchedPoints,
-			"bounds": o.cfg.Raw, "unwind": o.cfg.Unwind, "preempt": o.cfg.Preempt, "timers": o.cfg.Timers, "reached": reached,
+			"bounds": o.cfg.Raw, "unwind": o.cfg.Unwind, "preempt": o.cfg.Preempt, "sleep_sets_respect_preemption_bound": o.cfg.SleepBound, "timers": o.cfg.Timers, "reached": reached,
 			"inconclusive": r.Inconclusive, "exhausted_within_bounds": r.Complete, "violations": len(r.Violations),
 			"sample_paths_rerun_natively_and_agreeing": r.Conformed,
 		})
